@@ -900,11 +900,6 @@ def run(chk):
         "ASCII names only (model is_uppercase = 'A'..'Z'); Expr::Constructor is never produced by the parser and is not modelled",
         "nominal typing: types_compatible is pub(crate); observed through check_with_imports verdicts at 8 site kinds x 3 underlying types",
     ]
-    # DEV fallback until the lead merges build/kf-C17.json into known_findings.json (drop after merging)
-    if not chk.findings:
-        kf = os.path.join(vlib.VERIF, "build", "kf-C17.json")
-        if os.path.exists(kf):
-            chk.findings = json.load(open(kf))
     known_ids = {f["id"] for f in chk.findings if f.get("status") == "known"}
 
     import time
